@@ -1035,6 +1035,16 @@ def templates(N, Pn):
                 T['set'].append(((0, loops, s.id, qq, e, k), v, dict(info, kind=kind)))
                 T['ep'].append((0, loops, s.id, qq, e, k))
             T['ep'].append((0, loops, s.id, qq, None, None))
+        if q is not None:
+            # the same segment asked for under a qualifier it does NOT carry: another valid code of the same
+            # definition, and a value that is no code at all -- both must find nothing
+            codes = qual(s.g)[0] or []
+            for oq in [c for c in codes if c != q and ':' not in c][-1:] + ['ZQ9']:
+                if (loops, s.id, oq) in seen:
+                    continue
+                seen.add((loops, s.id, oq))
+                T['np'].append((0, loops, s.id, oq, None, None))
+                T['ep'].append((0, loops, s.id, oq, 2, None))
     for loops in loop_entries(N):
         multi = len(m_select(N, loops, None, None)) > 1
         T['np'].append((0, loops[:-1], loops[-1], None, None, None))
